@@ -50,6 +50,11 @@ CHECKS = {
    technique="bit-flip enumeration over zstd chunk bodies + damage-after-validation histories; TLC trace validation against the Reader contract (RRead: verified before released)",
    text="For four small zstd files (with/without dictionary, with/without the uncompressed-source flag) single-bit flips of body bytes (thorough: every bit of every body byte; those that still decompress are counted) are read with buffer sizes 1, 7, chunk/2, chunk-1, chunk, chunk+1 and 100000, the bad chunk being first, middle or last; plus histories in which the intact file is validated or read first and then damaged through another descriptor. Returned bytes are attributed to chunks through the index; TLC accepts a trace only if no successful read returns a byte of a chunk whose stored bytes do not match its index checksum, in that read or any later one.",
    note="Trusted: TLC, Reader.tla, hashlib verdicts per chunk, attribution of stream offsets to chunks by the declared sizes."),
+ "C09": dict(
+   category="model_checking", design_ref="DESIGN.md section 6, C09",
+   technique="enumerated on-disk states x validation-call orders on the real library; TLC trace validation against the Reader contract (RScan, RValidateData, RUnmodified, baseline equality)",
+   text="Targets derived from valid files (none/zstd, dictionary, uncompressed-source flag, chunks of repeated 32 KiB blocks and multi-block chunks): every combination of per-chunk region states (correct, zeroed, garbage, one bit flipped) for small files, every chunk-boundary / interior / block-edge truncation (thorough: every length), over-long files, a re-sealed wrong whole-data checksum with all chunks right, detached headers with good and damaged dictionary. On each, validate-all / validate-data / find-valid are called in 12 orders (including after a read to the end on the same context), followed by a read to the end. TLC accepts the trace only if every chunk is marked valid exactly when the reference codec's digest of the bytes present matches (only the dictionary for a detached header; all failed when only the whole-data checksum is wrong), the overall verdicts are exact, the file's SHA-256 is unchanged, and the read outcome (bytes delivered, match, verdict) equals that of an execution without validations.",
+   note="Trusted: TLC, Reader.tla, hashlib digests over the bytes present. Obligations on a call are waived (except 'no false success') when the context was already in an error state from an earlier failed call."),
 }
 
 def entry(pid, c):
